@@ -524,6 +524,14 @@ func (h *heapRun) apply(st Step, ret map[string]interface{}) error {
 		return err
 	case "Translate":
 		return sb.Translate(ai(a, "frame"), ai(a, "code"))
+	case "TranslateByReference":
+		return needAlign(o).TranslateByReference(ai(a, "frame"), ai(a, "code"), astr(a, "ref"))
+	case "CodonAlign":
+		c, err := needAlign(o).CodonAlign(h.get(ai(a, "nt")).sb)
+		if err != nil {
+			return err
+		}
+		ret["new"] = h.addAlign(c)
 	case "Clone":
 		c, err := needAlign(o).Clone()
 		if err != nil {
@@ -704,6 +712,10 @@ func heapFamily(env *Env) error {
 	})
 	if err != nil {
 		return err
+	}
+	if env.Mode == "C10sup" {
+		supportScripts(env)
+		return nil
 	}
 	if env.N > 0 {
 		rng := rand.New(rand.NewSource(env.Seed))
